@@ -29,9 +29,10 @@ import core
 DRIVERS = [("portal", "Portal")]
 
 # ---- codec (must match boundary/Portal.v) --------------------------------------------------------------------
-ISSUE, LAND, STEP, REAP, FCANCEL, CLAND, STOP, HEXIT, HRESUME, LOOPEND = range(10)
+ISSUE, LAND, STEP, REAP, FCANCEL, CLAND, STOP, HEXIT, HRESUME, LOOPEND, FCANCEL_LOOP = range(11)
 OPN = {ISSUE: "ThreadIssue", LAND: "ThreadLand", STEP: "TaskStep", REAP: "TaskReap", FCANCEL: "FutureCancel",
-       CLAND: "CancelLand", STOP: "Stop", HEXIT: "HostExit", HRESUME: "ResumeHost", LOOPEND: "LoopEnd"}
+       CLAND: "CancelLand", STOP: "Stop", HEXIT: "HostExit", HRESUME: "ResumeHost", LOOPEND: "LoopEnd",
+       FCANCEL_LOOP: "FutureCancelLoop"}
 KSYNC, KCORO, KSTART = 0, 1, 2
 F_BLOCK, F_RETURN, F_RAISE, F_RERAISE, F_CANCEL_OWN = 0, 1, 2, 3, 4
 # payload of F_CANCEL_OWN (ignored by the model): how the callable's own cancellation comes about
@@ -140,6 +141,8 @@ class CallRec:
         self.interrupts = 0
         self.lost = False                  # handed over after the loop's last iteration (F40)
         self.cancel_lost = False           # ... the scope.cancel of a Future.cancel() likewise
+        self.loop_cancelled_running = False   # its future was cancelled IN THE LOOP THREAD while the callable was blocked
+        self.interrupts_at_loop_cancel = 0
         self.own_cancel = False            # the callable's own outcome was a cancellation not requested via the portal
         self.steps_after_left = 0
         self.cancel_threads: list = []     # [thread, result-box, handle-or-None]
@@ -507,6 +510,7 @@ class PortalRun:
             if rec.caller is not None and rec.caller[0] == "ok" and rec.task is not None \
                     and not any(c[0].is_alive() for c in rec.cancel_threads):
                 en.append((FCANCEL, k))
+                en.append((FCANCEL_LOOP, k))
             if rec.cancel_handle is not None:
                 en.append((CLAND, k))
         en.append((STOP, 0))
@@ -586,9 +590,31 @@ class PortalRun:
             return 7
         if self.loop_ended and code in (STEP, REAP, STOP, HEXIT, HRESUME):
             return 99
-        rec = self.recs.get(k) if code in (LAND, STEP, REAP, FCANCEL, CLAND) else None
-        if code in (LAND, STEP, REAP, FCANCEL, CLAND) and rec is None:
+        if self.loop_ended and code == FCANCEL_LOOP:
             return 99
+        rec = self.recs.get(k) if code in (LAND, STEP, REAP, FCANCEL, CLAND, FCANCEL_LOOP) else None
+        if code in (LAND, STEP, REAP, FCANCEL, CLAND, FCANCEL_LOOP) and rec is None:
+            return 99
+        if code == FCANCEL_LOOP:
+            # Future.cancel() executed in the event-loop thread: a callback of the loop (as a done-callback of another
+            # future, another call's callable or the host task would) cancels the future of call k
+            if rec.caller is None or rec.caller[0] != "ok" or rec.fut is None:
+                return 99
+            fut = rec.fut
+            was_pending = not fut.done()
+            box = {}
+            h = loop.call_soon(lambda: box.__setitem__("ret", fut.cancel()))
+            loop.run_handle(h)
+            if box.get("ret"):
+                rec.fcancel_true = True
+                if was_pending:
+                    rec.fcancel_flipped = True
+                    if self.blocked(rec) and rec.kind != KSYNC:
+                        rec.loop_cancelled_running = True
+                        rec.loop_cancel_just_now = True
+                        rec.interrupts_at_loop_cancel = rec.interrupts
+                return 5
+            return 6
         if code == LAND:
             if not rec.at_gate or rec.task is not None or rec.land_handle is not None or rec.lost:
                 return 99
@@ -745,7 +771,7 @@ class PortalRun:
 
     # ---- property monitors on the implementation's history (independent of the model) -----------------------
     def _monitor_step(self, code, k, a, b, c, d, res, before_int):
-        rec = self.recs.get(k) if code in (ISSUE, LAND, STEP, REAP, FCANCEL, CLAND) else None
+        rec = self.recs.get(k) if code in (ISSUE, LAND, STEP, REAP, FCANCEL, CLAND, FCANCEL_LOOP) else None
         # -- every call the portal accepted is run exactly once and its caller is answered: once the call's task has
         #    ended, the callable has been invoked and the future (for start_task also the status future) is resolved
         for r in self.recs.values():
@@ -828,7 +854,19 @@ class PortalRun:
             self.mon.append(f"call {k} accepted into the group after the portal's context was left")
         if code == LAND and res == 2 and self.stopped_ever:
             self.flags.add("land_after_stop_accepted")
-        if code in (FCANCEL, CLAND) and rec is not None:
+        if code == FCANCEL_LOOP and res == 5 and rec is not None:
+            self.flags.add("future_cancel_in_loop_thread")
+            if getattr(rec, "loop_cancel_just_now", False):
+                rec.loop_cancel_just_now = False
+                self.flags.add("future_cancel_in_loop_thread_while_running")
+                if not self.interruptible(rec):
+                    self.mon.append(f"the future of running call {k} was cancelled in the event-loop thread (cancel() returned "
+                                    f"True, the future reports cancelled()) but no cancellation reaches its task")
+        if code == STEP and res == 4 and rec is not None and rec.loop_cancelled_running and rec.final is not None \
+                and rec.final[0] in ("ret", "raise") and rec.interrupts == rec.interrupts_at_loop_cancel:
+            self.mon.append(f"the future of call {k} reports cancelled() (cancelled in the event-loop thread while its task was "
+                            f"running) but its task was never cancelled and ran to completion ({rec.final[0]})")
+        if code in (FCANCEL, CLAND, FCANCEL_LOOP) and rec is not None:
             now_int = {j for j, r in self.recs.items() if self.interruptible(r)}
             others = (now_int - before_int) - {k}
             if others:
@@ -1057,7 +1095,7 @@ def random_case(rng: random.Random, nsteps: int, prefix: list[int] | None = None
     ncalls = ncalls or rng.choice([1, 2, 2, 3, 3, 4])
     w = {ISSUE: 4, LAND: 4, STEP: 5, REAP: 3, FCANCEL: rng.choice([0.5, 1.5, 3]), CLAND: 3,
          STOP: rng.choice([0.1, 0.4, 1.0]), HEXIT: rng.choice([0.2, 0.6, 1.5]), HRESUME: rng.choice([1, 3]),
-         LOOPEND: rng.choice([0.2, 1.0, 3.0])}
+         LOOPEND: rng.choice([0.2, 1.0, 3.0]), FCANCEL_LOOP: rng.choice([0.3, 1.0, 2.0])}
     w_own = rng.choice([0, 0.7, 2.0])      # how often a callable's own outcome is a foreign cancellation
     r = PortalRun(ncalls)
     val = 10
@@ -1178,7 +1216,7 @@ def exhaustive_cases(ncalls: int, depth: int, kinds=(KCORO,), budget: int = 1000
             if e[1] == 1 and r.tg.cancel_scope.cancel_called:
                 return []
             return [[code, 0, e[1], 0, 0, 0]]
-        if code == FCANCEL:
+        if code in (FCANCEL, FCANCEL_LOOP):
             rec = r.recs[e[1]]
             return [[code, e[1], 0, 0, 0, 0]] if (rec.fut is not None and not rec.fut.cancelled()) else []
         if code == HEXIT:
@@ -1548,7 +1586,8 @@ def run_e2e(tier: str, rng: random.Random):
         import uvloop  # noqa: F401
     except Exception:  # noqa: BLE001
         backends = backends[:1]
-    directed = {"caller_kinds": e2e_caller_kinds, "falsy_exceptions": e2e_falsy_exceptions}
+    directed = {"caller_kinds": e2e_caller_kinds, "falsy_exceptions": e2e_falsy_exceptions,
+                "cancel_in_loop_thread": e2e_cancel_in_loop_thread}
     for f in sorted((core.VERIF / "corpus" / "C15").glob("e2e_*.json")):
         spec = json.loads(f.read_text())
         fn = directed.get(spec.get("e2e_scenario"))
@@ -1810,6 +1849,128 @@ def e2e_falsy_exceptions(backend_opts: dict, label: str):
             mon.append(f"after the failing calls the portal no longer answers: {e!r}")
     return mon, {"label": label, "scenario": "F47: exceptions whose truth value is False through call / start_task_soon / "
                                             "start_task (before and after started())", "replay_fn": "e2e_falsy_exceptions"}, flags
+
+
+def e2e_cancel_in_loop_thread(backend_opts: dict, label: str):
+    """A portal future cancelled IN THE EVENT-LOOP THREAD while its task runs, end to end:
+      (1) "first result wins": a done-callback of another portal future (it runs in the loop thread, where that future
+          is completed) cancels the future of a task that never ends by itself;
+      (2) another portal call (a sync callable, which runs in the loop thread) cancels such a future.
+    Each time: cancel() returns True, the future reports cancelled(), the task must see CancelledError promptly, a
+    bystander task must not, and leaving start_blocking_portal() must not wait for a task the caller cancelled."""
+    import anyio
+    from anyio.from_thread import start_blocking_portal
+
+    mon: list[str] = []
+    flags: set[str] = set()
+    grace = 3.0
+    st = {"exited": False}
+
+    def make_sleeper(tag, box):
+        async def sleeper():
+            box["started"].set()
+            try:
+                while not box["release"].is_set():
+                    await anyio.sleep(0.001)
+                box["outcome"] = "completed"
+                return tag
+            except CancelledError:
+                box["outcome"] = "cancelled"
+                raise
+            finally:
+                box["t_end"] = time.monotonic()
+                box["ended"].set()
+        return sleeper
+
+    def new_box():
+        return {"started": threading.Event(), "release": threading.Event(), "ended": threading.Event(), "outcome": None}
+
+    boxes = {n: new_box() for n in ("victim1", "victim2", "bystander")}
+    done = threading.Event()
+
+    def owner():
+        with start_blocking_portal("asyncio", backend_opts) as portal:
+            st["portal"] = portal
+            st["ready"].set()
+            done.wait(E2E_WAIT * 4)
+        st["exited"] = True
+
+    st["ready"] = threading.Event()
+    towner = threading.Thread(target=owner, name=f"c15-loopcancel-owner-{label}", daemon=True)
+    towner.start()
+    if not st["ready"].wait(E2E_WAIT):
+        return ["start_blocking_portal did not come up"], {"label": label}, flags
+    portal = st["portal"]
+    loop_thread = portal.call(get_ident)
+    futs = {n: portal.start_task_soon(make_sleeper(n, boxes[n])) for n in boxes}
+    for n in boxes:
+        if not boxes[n]["started"].wait(E2E_WAIT):
+            mon.append(f"harness: task {n} did not start")
+
+    # (1) first result wins
+    gate = threading.Event()
+    seen = {}
+
+    async def winner():
+        while not gate.is_set():
+            await anyio.sleep(0.001)
+        return "won"
+
+    fwin = portal.start_task_soon(winner)
+
+    def on_done(_f):
+        seen["thread"] = get_ident()
+        seen["ret"] = futs["victim1"].cancel()
+
+    fwin.add_done_callback(on_done)
+    gate.set()
+    try:
+        fwin.result(E2E_WAIT)
+    except BaseException as e:  # noqa: BLE001
+        mon.append(f"the winning call failed: {e!r}")
+    deadline = time.time() + E2E_WAIT
+    while "ret" not in seen and time.time() < deadline:
+        time.sleep(0.001)
+    if seen.get("thread") != loop_thread:
+        mon.append("harness: the done-callback did not run in the event-loop thread")
+    # (2) cancel from another portal call
+    try:
+        ret2 = portal.call(futs["victim2"].cancel)
+    except BaseException as e:  # noqa: BLE001
+        ret2 = None
+        mon.append(f"portal.call(future.cancel) failed: {e!r}")
+    for n, ret, how in (("victim1", seen.get("ret"), "a done-callback of another portal future"),
+                        ("victim2", ret2, "another portal call")):
+        box = boxes[n]
+        if ret is not True or not futs[n].cancelled():
+            mon.append(f"Future.cancel() from {how} returned {ret!r}, cancelled()={futs[n].cancelled()}")
+            continue
+        if not box["ended"].wait(grace):
+            mon.append(f"the future cancelled in the event-loop thread by {how} reports cancelled() but its task was never "
+                       f"cancelled: it is still running {grace}s later (leaving the portal would wait for it)")
+        elif box["outcome"] != "cancelled":
+            mon.append(f"the future cancelled in the event-loop thread by {how} reports cancelled() but its task ran to "
+                       f"completion ({box['outcome']})")
+        else:
+            flags.add("loop_thread_cancel_" + ("done_callback" if n == "victim1" else "other_call"))
+    if boxes["bystander"]["ended"].is_set():
+        mon.append(f"a bystander task ended ({boxes['bystander']['outcome']}) although only OTHER futures were cancelled")
+    boxes["bystander"]["release"].set()
+    try:
+        if futs["bystander"].result(E2E_WAIT) != "bystander":
+            mon.append("bystander future wrong")
+    except BaseException as e:  # noqa: BLE001
+        mon.append(f"bystander call got {e!r}")
+    done.set()
+    towner.join(grace)
+    if towner.is_alive():
+        mon.append("leaving start_blocking_portal() waits for a task whose future was cancelled in the event-loop thread")
+    for b in boxes.values():          # clean-up after a failure
+        b["release"].set()
+    towner.join(E2E_WAIT)
+    return mon, {"label": label, "scenario": "Future.cancel() executed in the event-loop thread (done-callback of another "
+                                            "future / another portal call) while the task runs",
+                 "replay_fn": "e2e_cancel_in_loop_thread"}, flags
 
 
 def e2e_two_phase_stop(rng: random.Random, backend_opts: dict, label: str):
@@ -2312,7 +2473,7 @@ def check(tier: str) -> int:
     for _, _, fl in e2e:
         for f in fl:
             e2e_flags[f] = e2e_flags.get(f, 0) + 1
-    interesting = {"landed_after_loop_end", "cancelled_by_caller_reported", "own_cancel_with_others_in_flight", "two_phase_stop_with_running_calls", "interrupt", "future_cancel_interrupts_task", "land_during_exit_checkpoint", "land_during_exit_wait",
+    interesting = {"future_cancel_in_loop_thread_while_running", "landed_after_loop_end", "cancelled_by_caller_reported", "own_cancel_with_others_in_flight", "two_phase_stop_with_running_calls", "interrupt", "future_cancel_interrupts_task", "land_during_exit_checkpoint", "land_during_exit_wait",
                    "land_refused_group_inactive", "issue_refused_after_stop", "result_dropped_cancelled", "host_rewaits",
                    "future_cancel_after_stop", "started"}
     distinct = len({tuple(c) for c, r in zip(cases, runs) if r.flags & interesting})
@@ -2369,7 +2530,7 @@ def check(tier: str) -> int:
                                       "future_cancel_before_first_step", "interrupt_swallowed", "land_after_stop_accepted"}):
         if not flags.get(need):
             rep.notes.append(f"generator self-check: predicate {need} never reached")
-    for need in ("falsy_call", "falsy_soon", "falsy_start_before", "falsy_start_after", "falsy_exception", "kind_plain", "kind_own-worker", "kind_other-worker", "kind_other-worker-own", "cancelled_future_reported", "own_cancel_raise", "own_cancel_await", "own_cancel_native", "probe_before_stop", "two_phase_stop", "refused", "task_cancelled", "future_cancelled", "value", "exception", "started", "cancel_remaining",
+    for need in ("loop_thread_cancel_done_callback", "loop_thread_cancel_other_call", "falsy_call", "falsy_soon", "falsy_start_before", "falsy_start_after", "falsy_exception", "kind_plain", "kind_own-worker", "kind_other-worker", "kind_other-worker-own", "cancelled_future_reported", "own_cancel_raise", "own_cancel_await", "own_cancel_native", "probe_before_stop", "two_phase_stop", "refused", "task_cancelled", "future_cancelled", "value", "exception", "started", "cancel_remaining",
                  "finished_after_stop_requested"):
         if not e2e_flags.get(need):
             rep.notes.append(f"e2e generator self-check: predicate {need} never reached")
